@@ -283,6 +283,127 @@ theorem scripthashLock_accepts (hev : cfg.disallowEval = false) (hs : Nat) (hhs 
   exact eval_done cfg hev _ _ _ script' st rL rfl hne' (by simpa [getCount] using hcnt) (by simpa [getCount] using hL)
 
 
+/-! ### graftroot -/
+
+def graftA (flags : Nat) : Bytes := DUP ++ (SWAP 1 2 ++ (readCache "k" ++ (CSS ++ (opc VERIFY ++ EVAL))))
+def graftB (flags : Nat) : Bytes := readCache "k" ++ CHECK_SIG flags
+
+theorem graftrootLock_bytes (pk : Bytes) (flags : Nat) :
+    graftrootLock pk flags = pushB pk ++ (writeCache "k" 1 ++ ifElse (graftA flags) (graftB flags)) := by
+  simp only [graftrootLock, setVar1, graftA, graftB, List.append_assoc]
+
+/-- outcome of the graftroot key path -/
+def graftKeySpec (cache : List (CKey × CVal)) (pk sig : Bytes) (flags : Nat) (st : List Bytes) : Except Err (List Bytes) :=
+  match SigPure.checkSig H C cfg.lim.maxItemSize cache flags sig pk with
+  | .ok b => .ok (boolBytes b :: st)
+  | .error e => .error (.user e)
+
+set_option maxHeartbeats 1600000 in
+/-- **C13, graftroot lock, key path: exact outcome.** With a false selector on top of a signature
+    the lock ends with exactly the C02 verdict of the signature under the lock's key. -/
+theorem graftrootLock_keypath_run (hno : cfg.sigExts = []) (pk c sig : Bytes) (flags : Nat) (st : List Bytes) (sh : Shared) (count : Nat)
+    (hpk : pk.length = 32) (hfl : flags < 256) (hc : truthy c = false)
+    (hs : sh.stack = c :: sig :: st) (hr : sh.returned = false)
+    (hsz : 32 ≤ cfg.lim.maxItemSize) (hroom : st.length + 4 ≤ cfg.lim.maxItems) :
+    Ends (instrTable H C cfg) cfg.lim (topFrame (graftrootLock pk flags) count) sh
+      (fun r => Res.summary r = graftKeySpec H C cfg sh.cache pk sig flags st) := by
+  rw [graftrootLock_bytes]
+  unfold topFrame
+  generalize hlen : (pushB pk ++ (writeCache "k" 1 ++ ifElse (graftA flags) (graftB flags))).length = len
+  have hcap : len < len + 1 := by omega
+  have hla : (graftA flags).length = 10 := by unfold graftA; decide
+  have hlb : (graftB flags).length = 5 := by simp [graftB, readCache, CHECK_SIG, opc]; decide
+  have hlen' : 15 < len := by
+    rw [← hlen]; simp [ifElse, hla, hlb, opc]; omega
+  refine Ends.step (fun r h => run_pushB H C cfg _ sh pk _ r (by omega) (by omega) rfl hcap hr (by omega) (by rw [hs]; simp; omega) h) ?_
+  dsimp only
+  refine Ends.step (fun r h => run_writeCache1 H C cfg _ _ _ (asciiBytes "k") pk sh.stack r rfl (by decide) (by decide) hcap hr rfl h) ?_
+  dsimp only
+  unfold graftKeySpec
+  have hck : ∀ a s v, SigPure.checkSig H C cfg.lim.maxItemSize ((CKey.byt (asciiBytes "k"), CVal.list [Atom.bytes pk]) :: sh.cache) a s v
+      = SigPure.checkSig H C cfg.lim.maxItemSize sh.cache a s v := fun a s v => checkSig_cons_byt H C _ _ _ _ a s v
+  cases hspec : SigPure.checkSig H C cfg.lim.maxItemSize sh.cache flags sig pk with
+  | error e =>
+    refine ⟨_, run_ifelse_err H C cfg _ _ _ _ (graftA flags) (graftB flags) c (sig :: st) (.user e) rfl (by omega) (by omega) hcap hr (by rw [hs]) (by simp)
+      (by
+        rw [hc]
+        simp only [Bool.false_eq_true, ↓reduceIte]
+        refine run_readCache1 H C cfg _ _ (CHECK_SIG flags) (asciiBytes "k") pk _ rfl (by decide) (by decide)
+          (by simp [inlineFrame, hlb]; omega) (by simp [copyDict, hr]) (by simp [copyDict, lookupC_byt_cons_eq]) (by omega) (by simp [copyDict]; omega) ?_
+        try dsimp only
+        have := run_checksig_last H C cfg hno
+          { (inlineFrame (graftB flags) { rest := [], count := count, fn := none, dict := 0, len0 := len, cap := len + 1 }
+              { sh with stack := sig :: st, cache := (CKey.byt (asciiBytes "k"), CVal.list [Atom.bytes pk]) :: sh.cache }) with rest := CHECK_SIG flags }
+          { (copyDict { sh with stack := sig :: st, cache := (CKey.byt (asciiBytes "k"), CVal.list [Atom.bytes pk]) :: sh.cache } 0).2 with stack := pk :: sig :: st }
+          flags pk sig st rfl hfl (by simp [inlineFrame, hlb]; omega) (by simp [copyDict, hr]) rfl (by omega) (by omega)
+        simp only [copyDict] at this ⊢
+        rw [hck, hspec] at this
+        exact this), rfl⟩
+  | ok b =>
+    refine Ends.step (fun r h => run_ifelse_ok H C cfg _ _ _ _ _ (graftA flags) (graftB flags) c (sig :: st) r rfl (by omega) (by omega) hcap hr (by rw [hs])
+      (by
+        rw [hc]
+        simp only [Bool.false_eq_true, ↓reduceIte]
+        refine run_readCache1 H C cfg _ _ (CHECK_SIG flags) (asciiBytes "k") pk _ rfl (by decide) (by decide)
+          (by simp [inlineFrame, hlb]; omega) (by simp [copyDict, hr]) (by simp [copyDict, lookupC_byt_cons_eq]) (by omega) (by simp [copyDict]; omega) ?_
+        try dsimp only
+        have := run_checksig_last H C cfg hno
+          { (inlineFrame (graftB flags) { rest := [], count := count, fn := none, dict := 0, len0 := len, cap := len + 1 }
+              { sh with stack := sig :: st, cache := (CKey.byt (asciiBytes "k"), CVal.list [Atom.bytes pk]) :: sh.cache }) with rest := CHECK_SIG flags }
+          { (copyDict { sh with stack := sig :: st, cache := (CKey.byt (asciiBytes "k"), CVal.list [Atom.bytes pk]) :: sh.cache } 0).2 with stack := pk :: sig :: st }
+          flags pk sig st rfl hfl (by simp [inlineFrame, hlb]; omega) (by simp [copyDict, hr]) rfl (by omega) (by omega)
+        simp only [copyDict] at this ⊢
+        rw [hck, hspec] at this
+        exact this)
+      (by simp [hr]) h) ?_
+    dsimp only
+    exact ⟨_, TSteps.nil rfl, rfl⟩
+
+set_option maxHeartbeats 1600000 in
+/-- **C13, graftroot lock, a surrogate not signed by the lock's key.** With a true selector on
+    top of (surrogate script, signature): if the 64-byte signature does not verify under the
+    lock's key over the surrogate's bytes, the lock ends in an error at the VERIFY before `OP_EVAL`
+    — the surrogate is never evaluated. -/
+theorem graftrootLock_surrogate_rejects (pk c script ssig : Bytes) (flags : Nat) (st : List Bytes) (sh : Shared) (count : Nat)
+    (hpk : pk.length = 32) (hc : truthy c = true) (hsl : ssig.length = 64)
+    (hs : sh.stack = c :: script :: ssig :: st) (hr : sh.returned = false)
+    (hscr : script.length ≤ cfg.lim.maxItemSize)
+    (hsz : 64 ≤ cfg.lim.maxItemSize) (hroom : st.length + 5 ≤ cfg.lim.maxItems)
+    (hbad : Sodium.verify H C pk script ssig = false) :
+    Ends (instrTable H C cfg) cfg.lim (topFrame (graftrootLock pk flags) count) sh
+      (fun r => ∃ shE, r = .err (.user .see) shE ∧ shE.plog = sh.plog ∧ shE.randCtr = sh.randCtr ∧ shE.fns = sh.fns) := by
+  rw [graftrootLock_bytes]
+  unfold topFrame
+  generalize hlen : (pushB pk ++ (writeCache "k" 1 ++ ifElse (graftA flags) (graftB flags))).length = len
+  have hcap : len < len + 1 := by omega
+  have hla : (graftA flags).length = 10 := by unfold graftA; decide
+  have hlb : (graftB flags).length = 5 := by simp [graftB, readCache, CHECK_SIG, opc]; decide
+  have hlen' : 15 < len := by
+    rw [← hlen]; simp [ifElse, hla, hlb, opc]; omega
+  refine Ends.step (fun r h => run_pushB H C cfg _ sh pk _ r (by omega) (by omega) rfl hcap hr (by omega) (by rw [hs]; simp; omega) h) ?_
+  dsimp only
+  refine Ends.step (fun r h => run_writeCache1 H C cfg _ _ _ (asciiBytes "k") pk sh.stack r rfl (by decide) (by decide) hcap hr rfl h) ?_
+  dsimp only
+  have hA : graftA flags = DUP ++ (SWAP 1 2 ++ (readCache "k" ++ (CSS ++ (opc VERIFY ++ EVAL)))) := rfl
+  refine ⟨_, run_ifelse_err H C cfg _ _ _ _ (graftA flags) (graftB flags) c (script :: ssig :: st) (.user .see) rfl (by omega) (by omega) hcap hr (by rw [hs]) (by simp)
+    (by
+      rw [hc]
+      simp only [↓reduceIte]
+      refine run_dup H C cfg _ _ (SWAP 1 2 ++ (readCache "k" ++ (CSS ++ (opc VERIFY ++ EVAL)))) script (ssig :: st) _ (by simp [inlineFrame, hA])
+        (by simp [inlineFrame, hla]; omega) (by simp [copyDict, hr]) (by simp [copyDict]) hscr (by simp; omega) ?_
+      try dsimp only
+      refine run_swap12 H C cfg _ _ (readCache "k" ++ (CSS ++ (opc VERIFY ++ EVAL))) script script ssig st _ rfl (by simp [inlineFrame, hla]; omega) (by simp [copyDict, hr]) rfl hscr hscr (by omega) (by omega) ?_
+      try dsimp only
+      refine run_readCache1 H C cfg _ _ (CSS ++ (opc VERIFY ++ EVAL)) (asciiBytes "k") pk _ rfl (by decide) (by decide)
+        (by simp [inlineFrame, hla]; omega) (by simp [copyDict, hr]) (by simp [copyDict, lookupC_byt_cons_eq]) (by omega) (by simp; omega) ?_
+      try dsimp only
+      refine run_css H C cfg _ _ (opc VERIFY ++ EVAL) pk script ssig (script :: st) _ rfl (by simp [inlineFrame, hla]; omega) (by simp [copyDict, hr]) rfl hpk hsl (by omega) (by simp; omega) ?_
+      try dsimp only
+      exact run_verify_false H C cfg _ _ EVAL (boolBytes (Sodium.verify H C pk script ssig)) (script :: st) rfl
+        (by simp [inlineFrame, hla]; omega) (by simp [copyDict, hr]) rfl (by rw [hbad]; decide)), ⟨_, rfl, ?_⟩⟩
+  simp [copyDict]
+
+
 end more
 
 end TV.C13
